@@ -177,17 +177,51 @@ def lexable(e, o):
     return True
 
 
+def _al(s):
+    return "".join(chr(ord(c) + 32) if "A" <= c <= "Z" else c for c in s)
+
+
+def _au(s):
+    return "".join(chr(ord(c) - 32) if "a" <= c <= "z" else c for c in s)
+
+
+def _ail(s):
+    return any("a" <= c <= "z" for c in s) and not any("A" <= c <= "Z" for c in s)
+
+
+def lower_modelled(s):
+    """Python's lower() does to this string what the model's ASCII lower does (true for every ASCII string and
+    for every non-ASCII string that is a fixed point of lower(), e.g. 'straße', 'ﬁsh', 'σοφός')"""
+    return s.lower() == _al(s)
+
+
+def upper_modelled(s):
+    return s.upper() == _au(s)
+
+
 def ascii_cased_only(s):
-    """Python's upper/lower/islower agree with the model's ASCII versions on this string"""
-    return all(ord(c) < 128 or (c.upper() == c and c.lower() == c and not c.isupper() and not c.islower())
-               for c in s)
+    """Python's upper/lower/islower all agree with the model's ASCII versions on this string"""
+    return lower_modelled(s) and upper_modelled(s) and s.islower() == _ail(s)
 
 
-def case_modelled(e):
+def case_modelled(e, penman=False):
+    """every case operation the codecs apply to the strings of this graph is the ASCII one of the model:
+    predicate.lower(); property name .upper() (native decoder, sort index), .lower() / .islower() / .upper() of
+    the lower-cased name (PENMAN); property value .lower(); role .upper() (native decoder, sort key) and
+    .islower() (PENMAN)"""
     for n in e.nodes:
-        strs = [n.predicate] + list(n.properties) + list(n.properties.values()) + list(n.edges)
-        if not all(ascii_cased_only(s) for s in strs):
+        if not lower_modelled(n.predicate):
             return False
+        for k, v in n.properties.items():
+            if not (upper_modelled(k) and lower_modelled(v)):
+                return False
+            if penman:
+                lk = k.lower()
+                if not lower_modelled(k) or lk.islower() != _ail(lk) or not upper_modelled(lk):
+                    return False
+        for k in n.edges:
+            if not upper_modelled(k) or (penman and k.islower() != _ail(k)):
+                return False
     return True
 
 
@@ -237,7 +271,7 @@ def reachable(e):
     return seen
 
 
-PEN_SAFE = re.compile(r'[A-Za-z0-9_+\-]+')
+PEN_SAFE = re.compile('[A-Za-z0-9_+\\-ßẞσςΣΟΦόοφﬁſıİ\u00e9\u00c9\u0301\u00f6\u00d6ａｂｃｓｇｘＡＢＣＲＧＰＥＳ１]+')
 PEN_RESERVED = ("instance", "lnk", "carg", "type")
 
 
@@ -300,21 +334,31 @@ def pen_obs(e):
 
 # --------------------------------------------------------------------------- generators
 
-IDS = ["e2", "x5", "_1", "_2", "i10", "x", "e", "a", "b", "h1", "10000", "_3", "x12"]
+# non-ASCII letters with interesting case behaviour: sharp s, final / medial sigma, fi ligature, long s, dotless i,
+# precomposed and combining e-acute, full-width letters (all fixed points of lower(); upper()/casefold() change them)
+U_LOWER = ["straße_n_1", "σοφός_a_1", "ﬁsh_n_1", "ſtop_v_1", "ırmak_n", "caf\u00e9_n_1", "cafe\u0301_n_1", "ａｂｃ_n_1", "_größe_n_1"]
+# fixed points of upper() (lower() changes them)
+U_UPPER = ["\u00c9T\u00c9", "ΣΟΦ", "ＡＲＧ１", "İ", "ẞ", "ARG-Σ"]
+IDS = ["e2", "x5", "_1", "_2", "i10", "x", "e", "a", "b", "h1", "10000", "_3", "x12", "ß1", "xσ", "eς", "ｘ１", "İd",
+       "\u00e9", "e\u0301", "_ﬁ"]
 ODD_IDS = ["a b", "a:b", "|x", "#x", "", "x,y", "a<1", "q(", "t[", "u{"]
 PREDS = ["_rain_v_1", "named", "proper_q", "udef_q", "_dog_n_1", "card", "pron", "_the_q", "compound", "p", "q",
          "_bark_v_1", "loc_nonsp", "_in_p_loc", 'a"b', "p)", "語_n_1", "p>", "a|b", "a#b"]
-UP_PREDS = ["_The_q", "Named", "PRON", "_Dog_n_1"]
+UP_PREDS = ["_The_q", "Named", "PRON", "_Dog_n_1", "Straße_n_1", "ΣΟΦΟΣ_a", "İstanbul", "ﬁSH_n", "\u00c9t\u00e9_n", "ＡＢＣ_n",
+            "ẞ_n", "ſTOP_v"]
+PREDS_IN = PREDS[:14] + U_LOWER + U_LOWER     # the in-space predicate pool: about half non-ASCII
 TYPES = [None, "x", "e", "i", "u", "p", "h"]
-PROP_KEYS = list(sembase._COMMON_PROPERTIES) + ["FOO", "ZED", "AAA", "X-Y"]
-ODD_PROP_KEYS = ["Tense", "sf", "1", "tense"]
-PROP_VALS = ["past", "pres", "3", "sg", "pl", "+", "-", "prop", "indicative", "untensed", "bool", "m-or-f"]
-ODD_PROP_VALS = ["PRES", "Sg"]
+PROP_KEYS = list(sembase._COMMON_PROPERTIES) + ["FOO", "ZED", "AAA", "X-Y", "GR\u00d6SSE", "ΣΦ", "ＰＥＲＳ"]
+ODD_PROP_KEYS = ["Tense", "sf", "1", "tense", "ſf", "ΣΦ", "gr\u00f6sse", "ﬁ", "İ"]
+PROP_VALS = ["past", "pres", "3", "sg", "pl", "+", "-", "prop", "indicative", "untensed", "bool", "m-or-f", "groß", "ﬁ",
+             "ς", "ｓｇ", "\u00e9"]
+ODD_PROP_VALS = ["PRES", "Sg", "GROẞ", "Σ", "İ", "ＳＧ"]
 ROLES = ["ARG1", "ARG2", "ARG3", "BV", "L-INDEX", "R-INDEX", "LBL", "BODY", "CARG", "ARG", "RSTR", "L-HNDL", "ARG0", "MOD",
-         "A", "Z"]
-ODD_ROLES = ["arg1", "Arg2", "bv", "lbl"]
+         "A", "Z"] + U_UPPER
+ODD_ROLES = ["arg1", "Arg2", "bv", "lbl", "ſ", "straße", "arg-σ", "ﬁ", "ａｒｇ１", "lbł", "\u00e9"]
 CARGS = ["Kim", "", 'a"b', "a\\", '\\"', "x y", "é", "(", '")', '"', "\\\\", " ", 'a\\"b', "1984", "a\\b", '""',
-         "\\", "(\"x\")", "\U0001F600", "{", "}[", "a:b", "<0:1>", "|", "#1"]
+         "\\", "(\"x\")", "\U0001F600", "{", "}[", "a:b", "<0:1>", "|", "#1", "Straße", "ΣΟΦΟΣ ς", "ﬁ ſ", "İı",
+         "caf\u00e9 cafe\u0301", "ＡＢｃ", "ẞ\"ß\\"]
 CARG_ALPHA = ['"', "\\", "a", "b", " ", "(", ")", "{", "é", ":", "<", ">", "|", "#", ",", "[", "]", "'", "\t"]
 IDENTS = [None, None, None, None, "1", "abc", "", "10", "a-b", "x:y"]
 
@@ -409,7 +453,7 @@ def gen_eds(rng, odd=False, maxn=7):
             edges = gen_edges(rng, ids, odd, (0.5, [1, 1, 2]))
         if odd and edges and rng.random() < 0.1:
             edges[0] = (edges[0][0], "zz9")     # target that is not a node
-        pred = rng.choice(PREDS[:14]) if not odd else rng.choice(PREDS + UP_PREDS)
+        pred = rng.choice(PREDS_IN) if not odd else rng.choice(PREDS + UP_PREDS)
         typ = rng.choice(TYPES)
         if odd and rng.random() < 0.05:
             typ = ""
@@ -798,7 +842,7 @@ class C03(Check):
         if k == "json":
             return {"op": "json", "eds": case["eds"], "properties": case["properties"], "lnk": case["lnk"]}
         if k == "penman":
-            if not case_modelled(eds_of_j(case["eds"])):
+            if not case_modelled(eds_of_j(case["eds"]), penman=True):
                 return None
             return {"op": "penman", "eds": case["eds"], "properties": case["properties"], "lnk": case["lnk"]}
         if k == "triples":
